@@ -169,6 +169,68 @@ theorem putService_failure (env : Env) (s s' : Server) (w : ResponseWriter) (rq 
       · exact ⟨hs, Or.inr (Or.inr ht)⟩
       · subst ht; simp at hno
 
+/-- the registry lookup the IdP uses (`Server.GetServiceProvider`): the registered metadata, or `os.ErrNotExist` -/
+theorem getServiceProvider_eq (env : Env) (s : Server) (r : Option HTTPRequest) (id : String) :
+    GetServiceProvider env s r id =
+      .ok (match mapGet s.serviceProviders id with
+           | some md => (md, none)
+           | none => (none, some "os.ErrNotExist")) := by
+  unfold GetServiceProvider
+  simp only [Outcome.pure_eq_ok]
+  cases mapGet s.serviceProviders id <;> simp
+
+/-- C05 / C19: right after a successful registration the IdP's lookup of that entity ID returns the metadata just registered -/
+theorem registered_at_that_moment (env : Env) (s s' : Server) (w : ResponseWriter) (rq : HTTPRequest) (tr : List Event)
+    (h : HandlePutService env s w (some rq) = .ok (s', tr)) (hok : evNoContent ∈ tr) (r : Option HTTPRequest) :
+    ∃ md, env.getSPMetadata (some rq) = .ok (some md, none) ∧ GetServiceProvider env s' r md.EntityID = .ok (some md, none) := by
+  obtain ⟨md, _, _, hm, _, _, _, hget, _, _⟩ := putService_success env s s' w rq tr h hok
+  exact ⟨md, hm, by rw [getServiceProvider_eq, hget]⟩
+
+def evStoreDelete (key : String) : Event := ⟨"Store.Delete", [key]⟩
+
+/-- `DELETE /services/<name>`: a 204 means the stored service was read and removed from the store, and its entity ID is no longer
+    served (every other entity ID is served as before); any other outcome leaves the registry as it was -/
+theorem deleteService_cases (env : Env) (s s' : Server) (w : ResponseWriter) (rq : HTTPRequest) (tr : List Event)
+    (h : HandleDeleteService env s w (some rq) = .ok (s', tr)) :
+    let key := "/services/" ++ env.pathValue rq "id"
+    (s' = s ∧ evNoContent ∉ tr) ∨
+    (∃ svc, env.storeGet_Service key = .ok (svc, none) ∧ env.storeDelete key = .ok none ∧
+      tr = [evStoreDelete key, evNoContent] ∧
+      s'.serviceProviders = mapDelete s.serviceProviders svc.Metadata.EntityID ∧
+      mapGet s'.serviceProviders svc.Metadata.EntityID = none ∧
+      ∀ k, k ≠ svc.Metadata.EntityID → mapGet s'.serviceProviders k = mapGet s.serviceProviders k) := by
+  intro key
+  unfold HandleDeleteService at h
+  simp only [deref_some, Outcome.ok_bind', Outcome.pure_eq_ok] at h
+  cases hg : env.storeGet_Service key with
+  | err e => simp [key, hg] at h
+  | panic p => simp [key, hg] at h
+  | ok gres =>
+    obtain ⟨svc, ge⟩ := gres
+    simp only [key] at hg
+    simp only [hg, Outcome.ok_bind'] at h
+    cases ge with
+    | some e =>
+      simp at h
+      exact Or.inl ⟨h.1.symm, by rw [← h.2]; simp [evNoContent]⟩
+    | none =>
+      simp only [Option.isSome_none, Bool.false_eq_true, if_false] at h
+      cases hd : env.storeDelete key with
+      | err e => simp [key, hd] at h
+      | panic p => simp [key, hd] at h
+      | ok de =>
+        simp only [key] at hd
+        simp only [hd, Outcome.ok_bind'] at h
+        cases de with
+        | some e =>
+          simp at h
+          exact Or.inl ⟨h.1.symm, by rw [← h.2]; simp [evNoContent]⟩
+        | none =>
+          simp at h
+          refine Or.inr ⟨svc, rfl, rfl, by rw [← h.2]; rfl, by rw [← h.1], ?_, ?_⟩
+          · rw [← h.1]; exact mapGet_mapDelete_self _ _
+          · intro k hk; rw [← h.1]; exact mapGet_mapDelete_other _ _ _ hk
+
 theorem TransI_registry_no_failures : TransI.transFailures = [] := by decide
 
 end SamlVerif.TransRegistry
